@@ -17,11 +17,17 @@ def build(repo):
         for b in (0, 1, 2):
             for c in (0, 1, 2):
                 for d in (0, 1, 2, 3):
-                    n = 'prune_%s_%s_%s_%s' % (K[a], K[b], K[c], K[d])
-                    gp.append('prune!(%s, %d, %d, %d, %d);' % (n, a, b, c, d))
-                    numeric = all(x in (0, 1) for x in (a, b, c)) and d in (0, 1)
-                    u.harness(P + n, 'property::PropertyColumn::might_match::conservative[min=%s,max=%s,stored=%s,probe=%s]' % (K[a], K[b], K[c], K[d]),
-                              tier='quick' if numeric or (a == b == c == 2) else 'thorough', timeout=600)
+                    for g, gname in ((0, 'eq'), (1, 'ord')):
+                        for ex in (False, True):
+                            n = 'prune_%s%s_%s_%s_%s_%s' % (gname, '_exact' if ex else '', K[a], K[b], K[c], K[d])
+                            gp.append('prune!(%s, %d, %s, %d, %d, %d, %d);' % (n, g, 'true' if ex else 'false', a, b, c, d))
+                            numeric = all(x in (0, 1) for x in (a, b, c)) and d in (0, 1)
+                            if ex and not numeric:
+                                gp.pop()
+                                continue
+                            u.harness(P + n, 'property::PropertyColumn::might_match::conservative::%s%s[min=%s,max=%s,stored=%s,probe=%s]' % (
+                                'Eq/Ne' if g == 0 else 'Lt/Le/Gt/Ge', '::exact_domain' if ex else '', K[a], K[b], K[c], K[d]),
+                                tier='quick' if (ex and numeric) or (a == b == c and d in (a, 3)) else 'thorough', timeout=600)
                 for d in (0, 1, 2, 3):
                     n = 'step_%s_%s_%s_%s' % (K[a], K[b], K[c], K[d])
                     gs.append('step!(%s, %d, %d, %d, %d);' % (n, a, b, c, d))
@@ -41,6 +47,16 @@ def build(repo):
                         same = (a == b == c)
                         u.harness(R + n, 'zone_map::ZoneMapEntry::might_contain_range::conservative_vs_value_in_range[min=%s,max=%s,stored=%s,lo=%s,hi=%s]' % (KR[a], KR[b], KR[c], KR[lo], KR[hi]),
                                   tier='quick' if same else 'thorough', timeout=600)
+    ga = []
+    for c in (0, 1):
+        for lo in (0, 1, 9):
+            for hi in (0, 1, 9):
+                if lo == 9 and hi == 9:
+                    continue
+                n = 'agrees_%s_%s_%s' % (KR[c], KR[lo], KR[hi])
+                ga.append('agrees!(%s, %d, %d, %d);' % (n, c, lo, hi))
+                u.harness(R + n, 'store::value_in_range::agrees_with_filter_evaluator[stored=%s,lo=%s,hi=%s]' % (KR[c], KR[lo], KR[hi]), props=['C10'], timeout=600)
+    text = text.replace('//@GENERATED-AGREES@', '\n    '.join(ga))
     text = text.replace('//@GENERATED-PRUNE@', '\n    '.join(gp)).replace('//@GENERATED-STEP@', '\n    '.join(gs)).replace('//@GENERATED-RANGE@', '\n    '.join(gr))
     parts = re.split(r'(?m)^//@@FILE (\S+)\n', text)
     for i in range(1, len(parts), 2):
@@ -52,6 +68,7 @@ def build(repo):
     u.not_covered = ['property-index path, range-index path, factorized vs flat execution, plan cache (hash-map / planner code)', 'label index, adjacency lists, counts (RwLock<FxHashMap>/DashMap)',
                      'String values (heap), Bloom filter path of might_contain_equal (hash loops; PropertyColumn never installs a Bloom filter)',
                      'rebuild_zone_map (loop over FxHashMap values; its body repeats update_zone_map_on_insert), ZoneMapBuilder::add (same logic), ComparisonPredicate (needs a DataChunk)']
+    u.ignore_checks = [r'^NaN on (addition|subtraction|multiplication|division)']   # CBMC's NaN-generation check is not a Rust panic
     u.trust('kani::stub regex::Regex::{new,is_match}', 'cuts the Regex arm of eval_binary_op out of reachability (kani-compiler ICE); regex is not under any obligation')
     u.assumptions = ['the summary invariant is proved inductive for one representative stored value and one insert; the n-element statement is the induction the harnesses discharge base + step for',
                      'rule M1: ExpressionPredicate methods never read self (uninitialised receiver, never dereferenced)']
